@@ -193,3 +193,17 @@ def shutdown_from_callback(rng, ident):
         s.append("cmd/3/ok/0/nowait")
     s += ["awaitall", "settle"]
     return " ".join(kv) + " script=" + ";".join(s)
+
+
+def timeouts_with_slow_dial(rng, ident):
+    """the options meant for the built-in dialer (DialerTimeout, HandshakeTimeout) set on a Connection whose
+    transport takes longer than that to dial: still one dial at a time, whatever else happens meanwhile"""
+    opt = rng.choice(["dialertimeout=25", "handshaketimeout=25", "dialertimeout=25 handshaketimeout=25"])
+    kv = ["conn", ident, "mode=conc", "lazy=1", opt, "dials=%s" % rng.choice(["ok,ok,ok", "fail,ok,ok"]), "conns=ok,ok,ok"]
+    s = ["holddial", "cmd/1/ok/0/nowait", "waitdial/1", "sleep/%d" % rng.choice([60, 120])]
+    if rng.chance(1, 2):
+        s.append("cmd/2/ok/0/nowait")
+    if rng.chance(1, 3):
+        s += ["force/3/nowait", "sleep/40"]
+    s += ["releasedial", "settle", "awaitall", "settle"]
+    return " ".join(kv) + " script=" + ";".join(s)
